@@ -171,7 +171,7 @@ func reflJobs(c *Ctx) []ReflJob {
 	add("verif.s0.M", "", 2, 2, 1)
 	add("verif.s0.M", "i,d,s,b,e,z,t,f,fl", 2, 3, 0)
 	add("verif.s0.M", "ri,rn,rs,ru", 2, 3, 1)
-	add("verif.s0.M", "msi,min,mbb", 2, 3, 1)
+	add("verif.s0.M", "msi,min,mbb", 3, 3, 1)
 	add("verif.s0.M", "n,oi,os,on,qb,qd", 3, 4, 1)
 	add("verif.s0.N", "", 2, 3, 1)
 	add("A", "enum,some_boolean,INT32,SINT32,UINT32,INT64,SING64,UINT64,SFIXED32,FIXED32,FLOAT,SFIXED64,FIXED64,DOUBLE,STRING,BYTES", 2, 2, 0)
